@@ -3,20 +3,32 @@ CONSTANTS
   Impl = "ref"
   MaxNodes = 1
   Widths = {2}
-  Dims = {1, 2}
+  Dims = {2}
   C0 = 2
   Sp0 = 2
   Methods = {"PIT", "SN", "MPS"}
-  Twos = {"no", "add", "cat"}
+  Twos = {"no", "cat"}
+  ConvVars = {"dflt"}
+  BnVars = {"dflt"}
+  SnoVars = {1}
   AllowPl = TRUE
   AllowExcl = TRUE
-  AllowReuse = TRUE
+  AllowReuse = FALSE
+  AllowLin3 = FALSE
+  AllowDrop = FALSE
   AllowFindings = TRUE
+  MaxHist = 2
+VIEW ViewNoHist
+INVARIANT InvConvertOk
 INVARIANT InvFnPreserved
+INVARIANT InvImportedConfig
 INVARIANT InvUserParams
 INVARIANT InvUserFn
+INVARIANT InvUserOpts
 INVARIANT InvModeKept
+INVARIANT InvFlagsLast
 INVARIANT InvExportIso
 INVARIANT InvExportLiteral
 INVARIANT InvBnAccount
+INVARIANT InvNasConfig
 INVARIANT InvWellFormed
